@@ -236,11 +236,178 @@ pub fn layout_cfg(cfg: &Cfg, cu: &mut Customs) -> String {
     out
 }
 
+fn btn_n(b: &kanata_parser::custom_action::Btn) -> u8 {
+    use kanata_parser::custom_action::Btn::*;
+    match b {
+        Left => 0,
+        Right => 1,
+        Mid => 2,
+        Forward => 3,
+        Backward => 4,
+    }
+}
+fn wdir(d: &kanata_parser::custom_action::MWheelDirection) -> u8 {
+    use kanata_parser::custom_action::MWheelDirection::*;
+    match d {
+        Up => 0,
+        Down => 1,
+        Left => 2,
+        Right => 3,
+    }
+}
+fn mdir(d: &kanata_parser::custom_action::MoveDirection) -> u8 {
+    use kanata_parser::custom_action::MoveDirection::*;
+    match d {
+        Up => 0,
+        Down => 1,
+        Left => 2,
+        Right => 3,
+    }
+}
+fn fkop(a: &kanata_parser::custom_action::FakeKeyAction) -> u8 {
+    use kanata_parser::custom_action::FakeKeyAction::*;
+    match a {
+        Press => 0,
+        Release => 1,
+        Tap => 2,
+        Toggle => 3,
+    }
+}
+pub fn seq_mode_n(m: kanata_parser::custom_action::SequenceInputMode) -> u8 {
+    use kanata_parser::custom_action::SequenceInputMode::*;
+    match m {
+        HiddenSuppressed => 0,
+        HiddenDelayType => 1,
+        VisibleBackspaced => 2,
+    }
+}
+
+pub fn custom_action(out: &mut String, a: &CustomAction) {
+    use CustomAction::*;
+    match a {
+        Unicode(c) => write!(out, "uni {} ", *c as u32).unwrap(),
+        Mouse(b) => write!(out, "mo {} ", btn_n(b)).unwrap(),
+        MouseTap(b) => write!(out, "mt {} ", btn_n(b)).unwrap(),
+        FakeKey { coord, action } => write!(out, "fk {} {} {} ", coord.x, coord.y, fkop(action)).unwrap(),
+        FakeKeyOnRelease { coord, action } => write!(out, "fkr {} {} {} ", coord.x, coord.y, fkop(action)).unwrap(),
+        FakeKeyOnIdle(f) => write!(out, "fki {} {} {} {} ", f.coord.x, f.coord.y, fkop(&f.action), f.idle_duration).unwrap(),
+        FakeKeyHoldForDuration(f) => write!(out, "fkh {} {} {} ", f.coord.x, f.coord.y, f.hold_duration).unwrap(),
+        MWheel { direction, interval, distance } => write!(out, "mw {} {} {} ", wdir(direction), interval, distance).unwrap(),
+        MWheelNotch { direction } => write!(out, "mwn {} ", wdir(direction)).unwrap(),
+        MoveMouse { direction, interval, .. } => write!(out, "mm {} {} ", mdir(direction), interval).unwrap(),
+        MoveMouseAccel { direction, interval, .. } => write!(out, "mma {} {} ", mdir(direction), interval).unwrap(),
+        MoveMouseSpeed { speed } => write!(out, "mms {speed} ").unwrap(),
+        SequenceCancel => out.push_str("sc "),
+        SequenceLeader(t, m) => write!(out, "sl {} {} ", t, seq_mode_n(*m)).unwrap(),
+        SequenceNoerase(n) => write!(out, "sn {n} ").unwrap(),
+        LiveReload => out.push_str("lr "),
+        Repeat => out.push_str("rp "),
+        CancelMacroOnRelease => out.push_str("cmr "),
+        CancelMacroOnNextPress(d) => write!(out, "cmp {d} ").unwrap(),
+        DynamicMacroRecord(i) => write!(out, "dr {i} ").unwrap(),
+        DynamicMacroRecordStop(n) => write!(out, "ds {n} ").unwrap(),
+        DynamicMacroPlay(i) => write!(out, "dp {i} ").unwrap(),
+        SendArbitraryCode(c) => write!(out, "ac {c} ").unwrap(),
+        CapsWord(cfg) => {
+            write!(out, "cw {} ", cfg.keys_to_capitalize.len()).unwrap();
+            for k in cfg.keys_to_capitalize.iter() {
+                write!(out, "{} ", *k as u16).unwrap();
+            }
+            write!(out, "{} ", cfg.keys_nonterminal.len()).unwrap();
+            for k in cfg.keys_nonterminal.iter() {
+                write!(out, "{} ", *k as u16).unwrap();
+            }
+            let toggle = matches!(cfg.repress_behaviour, kanata_parser::custom_action::CapsWordRepressBehaviour::Toggle);
+            write!(out, "{} {} ", cfg.timeout, toggle as u8).unwrap();
+        }
+        Unmodded { keys, mods } => {
+            write!(out, "um {} ", keys.len()).unwrap();
+            for k in keys.iter() {
+                write!(out, "{} ", *k as u16).unwrap();
+            }
+            write!(out, "{} ", mods.bits()).unwrap();
+        }
+        Unshifted { keys } => {
+            write!(out, "us {} ", keys.len()).unwrap();
+            for k in keys.iter() {
+                write!(out, "{} ", *k as u16).unwrap();
+            }
+        }
+        ReverseReleaseOrder => out.push_str("rro "),
+        _ => out.push_str("op "),
+    }
+}
+
 /// Dump for the kanata-level model: the layout configuration followed by kanata-level settings.
-pub fn kanata_cfg(k: &kanata_state_machine::Kanata, cu: &mut Customs) -> String {
+pub fn kanata_cfg(k: &kanata_state_machine::Kanata, opts: &CfgOptions, cu: &mut Customs) -> String {
     let mut out = String::new();
     let l: &'static BorrowedKLayout<'static> = unsafe { std::mem::transmute(k.layout.b()) };
     out.push_str(&layout_of(l, cu));
+    writeln!(
+        out,
+        "KCFG {} {} {} {} {} {} {} {} {}",
+        opts.override_release_on_activation as u8,
+        k.sequence_always_on as u8,
+        seq_mode_n(k.sequence_input_mode),
+        k.sequence_timeout,
+        k.sequence_backtrack_modcancel as u8,
+        opts.dynamic_macro_max_presses,
+        matches!(opts.dynamic_macro_replay_delay_behaviour, ReplayDelayBehaviour::Recorded) as u8,
+        k.switch_max_key_timing,
+        opts.movemouse_smooth_diagonals as u8,
+    )
+    .unwrap();
+    // key outputs, per layer, sorted by physical key
+    for (li, m) in k.key_outputs.iter().enumerate() {
+        let mut ks: Vec<_> = m.iter().collect();
+        ks.sort_by_key(|(k, _)| u16::from(**k));
+        write!(out, "KEYOUT {} {} ", li, ks.len()).unwrap();
+        for (k, outs) in ks {
+            write!(out, "{} {} ", u16::from(*k), outs.len()).unwrap();
+            for o in outs.iter() {
+                write!(out, "{} ", u16::from(*o)).unwrap();
+            }
+        }
+        out.push('\n');
+    }
+    let ovs = k.overrides.verif_dump();
+    write!(out, "OVERRIDES {} ", ovs.len()).unwrap();
+    for (inm, onm, im, om) in ovs {
+        write!(out, "{} {} {} ", inm, onm, im.len()).unwrap();
+        for x in im {
+            write!(out, "{x} ").unwrap();
+        }
+        write!(out, "{} ", om.len()).unwrap();
+        for x in om {
+            write!(out, "{x} ").unwrap();
+        }
+    }
+    out.push('\n');
+    let seqs = k.sequences.verif_entries();
+    write!(out, "SEQS {} ", seqs.len()).unwrap();
+    for (key, (x, y)) in seqs {
+        write!(out, "{} ", key.len()).unwrap();
+        for v in key {
+            write!(out, "{v} ").unwrap();
+        }
+        write!(out, "{x} {y} ").unwrap();
+    }
+    out.push('\n');
+    // custom action table (ids were assigned while serialising the layout above; complete it with
+    // any custom list first reached from here)
+    let mut i = 0;
+    let mut culines = String::new();
+    while i < cu.table.len() {
+        let acs = cu.table[i].1;
+        write!(culines, "CU {} {} ", i, acs.len()).unwrap();
+        for a in acs.iter() {
+            custom_action(&mut culines, a);
+        }
+        culines.push('\n');
+        i += 1;
+    }
+    writeln!(out, "CUSTOMS {}", cu.table.len()).unwrap();
+    out.push_str(&culines);
     out
 }
 
